@@ -37,7 +37,14 @@ MIRI_PROPS = {"C04", "C10", "C11", "C19", "C20"}
 # properties whose monitors have no workload sized for an interpreter: a uniform sample of the
 # quick workload (stratified by sub-monitor) is drawn natively and replayed under Miri
 MIRI_SAMPLED_PROPS = {"C01", "C02", "C03", "C05", "C06", "C07", "C08", "C09", "C12", "C13", "C14", "C15", "C16", "C18"}
-MIRI_SAMPLE_TOTAL = 640
+# cases replayed per property (whole run, 16 processes) and the largest case (argument bytes) offered to
+# the sample: the equivalence monitors run many comparisons per case and are sized down
+MIRI_SAMPLE_TOTAL = {"C07": 48, "C08": 48, "C13": 96, "C01": 320, "C02": 320, "C03": 320, "C06": 320}
+MIRI_SAMPLE_DEFAULT = 128
+MIRI_SAMPLE_MAX_BYTES = {"C07": 300, "C08": 300, "C13": 300}
+# sub-monitors left to the native run and ASan: one "alias" case compares every prefix and suffix view of a
+# buffer with every other (thousands of comparisons), minutes per case under the interpreter
+MIRI_SAMPLE_SKIP = {"C07": {"alias"}, "C08": {"alias"}}
 ASAN_PROPS = {"C01", "C02", "C03", "C04", "C05", "C06", "C07", "C08", "C09", "C10", "C11", "C12", "C13", "C14", "C15", "C16", "C18", "C19", "C20"}
 NPROC = 16
 
@@ -123,7 +130,8 @@ def miri_sampled_stage(prop, tier, seed, env, say, verif, repo, target, bin, **k
     sample = os.path.join(target, "miri-sample-%s.json" % prop)
     if os.path.exists(sample):
         os.remove(sample)
-    p = subprocess.run([bin, prop, "--tier", "quick", "--seed", str(seed), "--dump-sample", str(MIRI_SAMPLE_TOTAL), "--out", sample],
+    total = int(os.environ.get("VERIF_MIRI_SAMPLE", MIRI_SAMPLE_TOTAL.get(prop, MIRI_SAMPLE_DEFAULT)))
+    p = subprocess.run([bin, prop, "--tier", "quick", "--seed", str(seed), "--dump-sample", str(total), "--dump-max-bytes", str(MIRI_SAMPLE_MAX_BYTES.get(prop, 1500)), "--out", sample],
                        cwd=verif, env=env, stdout=subprocess.PIPE, stderr=subprocess.PIPE, text=True)
     if p.returncode != 0 or not os.path.exists(sample):
         res["inconclusive"] = "sampling the workload failed (exit %s): %s" % (p.returncode, p.stderr[-200:].replace("\n", " | "))
@@ -131,13 +139,19 @@ def miri_sampled_stage(prop, tier, seed, env, say, verif, repo, target, bin, **k
     d = json.load(open(sample))
     by_mon = {}
     for c in d["cases"]:
+        if c["mon"] in MIRI_SAMPLE_SKIP.get(prop, ()):
+            continue
         by_mon.setdefault(c["mon"], []).append(c)
-    quota = max(1, -(-MIRI_SAMPLE_TOTAL // max(1, len(by_mon))))
+    quota = max(1, -(-total // max(1, len(by_mon))))
     cases = []
-    for k in range(quota):            # round-robin: every replay shard sees every sub-monitor
+    for k in range(quota):
         for mon in sorted(by_mon):
             if k < len(by_mon[mon]):
                 cases.append(by_mon[mon][k])
+    # the replay shards take positions modulo 16: shuffle (deterministically) so that a sub-monitor count
+    # dividing 16 does not pin each sub-monitor to a few shards
+    import random
+    random.Random(seed * 1000003 + len(cases)).shuffle(cases)
     json.dump({"cases": cases}, open(sample, "w"))
     res["info"]["workload_generated"] = d.get("generated")
     res["info"]["sampled_per_sub_monitor"] = {m: {"eligible": d["per_sub_monitor"].get(m, {}).get("eligible"), "replayed": min(quota, len(v))} for m, v in by_mon.items()}
